@@ -25,6 +25,11 @@ type wk struct {
 	logs    *lib.LogBuf
 	journal *os.File
 	out     Out
+	// prevPanic: the previous case of this worker made its handler panic. What
+	// the recovering goroutine logs (net/http's diagnostic for its attempt to
+	// write a 500 after the body) can come after the harness has moved on.
+	prevPanic bool
+	recheck   bool
 }
 
 func (w *wk) count(name string, n int64) { w.out.Counters[name] += n }
@@ -184,6 +189,20 @@ func (w *wk) runCase(s Site, k Case, half bool) {
 	}
 	logText := w.logs.Take()
 	sup := reSuperfluous.FindAllStringSubmatch(logText, -1)
+	afterPanic := w.prevPanic
+	w.prevPanic = b.Class == clPanicA || b.Class == clPanicB
+	if len(sup) > 0 && b.Class != clPanicA && afterPanic && !w.recheck {
+		// the diagnostic may be the late one of the preceding, panicking case
+		// (that case is allowed to have it): let that goroutine finish, then
+		// run this case once more and judge what is seen then
+		w.count("superfluous_after_a_panicking_case_rechecked", 1)
+		time.Sleep(300 * time.Millisecond)
+		w.logs.Take()
+		w.recheck = true
+		w.runCase(s, k, half)
+		w.recheck = false
+		return
+	}
 	w.count("cases", 1)
 	w.count("class_"+b.Class, 1)
 	if strings.Contains(logText, "[PANIC") {
